@@ -377,7 +377,11 @@ func (h *MultiHandler) recoverFromMessage() {
 
 // Stop cancels the current execution of the protocol, and alerts the other users.
 func (h *MultiHandler) Stop() {
-	if h.err != nil || h.result != nil {
+	h.mtx.Lock()
+	defer h.mtx.Unlock()
+	// only a session that is still running can be stopped: a finished one has
+	// already closed its outgoing channel
+	if h.err == nil && h.result == nil {
 		h.abort(errors.New("aborted by user"), h.currentRound.SelfID())
 	}
 }
